@@ -2067,7 +2067,7 @@ func (e *lbEngine) execCall(in *lbInst, st *lstate, call *ssa.Call) *lstate {
 		}
 		return st
 	}
-	if e.shallow && callee.Signature.Recv() != nil && len(com.Args) > 0 && e.aliasOf(in, com.Args[0]) == "lexer" && e.movesCursor(callee) && !(e.shallowLeaf && e.isLeafHelper(callee)) && !e.inlineAlso[callee.Name()] {
+	if e.shallow && callee.Signature.Recv() != nil && len(com.Args) > 0 && e.aliasOf(in, com.Args[0]) == "lexer" && e.movesCursor(callee) && !(e.shallowLeaf && e.isLeafHelper(callee)) && !e.inlineAlso[callee.Name()] && !(e.tiling && e.recordsTrivia(callee)) {
 		// the callee only moves the cursor forward (it has no other access to Lexer.pos than skip/skipN)
 		var grow []lfact
 		for _, f := range st.f {
@@ -2248,6 +2248,30 @@ func (w *World) positionSummary() []resolvedArg {
 	}
 	w.posSum = out
 	return out
+}
+
+// recordsTrivia: the method itself stores Space/Comments/Raw/Pos/End of the lexer's token (a part of nextToken split off
+// into a method of its own, like a trivia loop): it belongs to the tiling argument and is followed, not abstracted.
+func (e *lbEngine) recordsTrivia(fn *ssa.Function) bool {
+	for _, b := range fn.Blocks {
+		for _, in := range b.Instrs {
+			st, ok := in.(*ssa.Store)
+			if !ok {
+				continue
+			}
+			fa, ok := st.Addr.(*ssa.FieldAddr)
+			if !ok {
+				continue
+			}
+			switch fieldAddrName(fa) {
+			case "Space", "Comments", "Raw", "Pos", "End":
+				if _, isCur := e.w.curTokenAddr(fa.X); isCur {
+					return true
+				}
+			}
+		}
+	}
+	return false
 }
 
 func (e *lbEngine) inScope(fn *ssa.Function) bool {
@@ -2437,6 +2461,20 @@ func (e *lbEngine) inline(in *lbInst, st *lstate, call *ssa.Call, callee *ssa.Fu
 	keep[e.P], keep[e.N] = true, true
 	e.frames = append(e.frames, lbFrame{fn: callee, call: call})
 	rets := e.run(ni, st)
+	if e.tiling || e.tokLen {
+		// what a callee recorded about the token being built (a trivia loop split off into its own method) is the
+		// caller's knowledge afterwards
+		for k, id := range e.at.byKey {
+			if gk, ok := k.(ghostFieldKey); ok {
+				if o, isS := gk.owner.(string); isS && o == "Token" {
+					keep[id] = true
+				}
+			}
+			if ks, ok := k.(string); ok && ks == "lastEnd" {
+				keep[id] = true
+			}
+		}
+	}
 	e.frames = e.frames[:len(e.frames)-1]
 	if progG != 0 && e.record {
 		for _, rt := range rets {
